@@ -110,7 +110,9 @@ pub mod harness {
         std::mem::forget(node);
     }
     /// recursion: a Binary node over a Unary node over a leaf (three levels of the real `eval`)
-    #[vp_proof_uf]
+    // unwind(2): CBMC does not see the variant of the innermost leaf (reached through two heap objects) as a constant and explores every arm there;
+    // the recursive calls of those spurious arms are cut by the bound and their unwinding assertions are proved unreachable
+    #[vp_proof_uf_u2]
     pub fn binary_over_unary_glue_uf() {
         let (op1, op2) = (any_op(), any_op());
         let x = any_v64();
@@ -153,29 +155,6 @@ pub mod harness {
         } else {
             assert!(r.mask_xz == 0 && r.payload == xp.wrapping_sub(yp) & rmask(w),
                 "Binary Sub node: eval = {:?}, IEEE 1800: (x - y) mod 2^width on the operands extended to the node width; x = {:?}, y = {:?}, width = {}, signed = {}", r, x, y, w, signed);
-        }
-        std::mem::forget(node);
-    }
-    /// `x >>> y` (11.4.10): vacated bits take the sign bit iff the NODE is signed; the amount is the right child
-    #[vp_proof]
-    pub fn binary_real_ashr() {
-        let x = any_v64_sized();
-        let y = any_v64_sized();
-        let w: usize = kani::any();
-        let signed: bool = kani::any();
-        kani::assume(w >= 1 && w <= 64 && w >= x.width as usize);
-        kani::assume(!signed || x.signed);
-        let node = Expression::Binary { x: leaf(&x), op: Op::ArithShiftR, y: leaf(&y), expr_context: ExpressionContext { width: w, signed } };
-        let r = run64(&node);
-        assert!(wf(&r) && r.width as usize == w);
-        if y.mask_xz != 0 {
-            assert!(all_x(&r, w));
-        } else {
-            let s = y.payload;
-            let k: usize = kani::any();
-            kani::assume(k < w);
-            let e = if s < w as u64 && k + (s as usize) < w { ext_bit(&x, k + s as usize, signed) } else if signed { ext_bit(&x, w - 1, signed) } else { Zero };
-            assert!(bit(&r, k) == e, "Binary ArithShiftR node: bit {} is {:?}, IEEE 1800 gives {:?}; x = {:?}, amount = {:?}, width = {}, signed = {}, result = {:?}", k, bit(&r, k), e, x, y, w, signed, r);
         }
         std::mem::forget(node);
     }
@@ -268,15 +247,17 @@ pub mod harness {
         (v, rep, elem_width)
     }
     /// {e_1 x rep_1, .., e_n x rep_n}, e_1 most significant; bounded in the SHAPE (n <= 3 elements - one harness per n, so that the
-    /// Vec has a concrete length -, rep <= 2), complete in the values, widths and signedness
-    fn concat_layout(n: usize) {
+    /// Vec has a concrete length -, rep <= 2 for n <= 2, rep <= 1 for n == 3), complete in the values, widths and signedness
+    fn concat_layout(n: usize, max_rep: usize) {
         let e = [sized_elem(), sized_elem(), sized_elem()];
+        kani::assume(e[0].1 <= max_rep && e[1].1 <= max_rep && e[2].1 <= max_rep);
         let signed: bool = kani::any();
         let mut total = 0usize;
         for i in 0..3 {
             if i < n { total += e[i].1 * e[i].0.width as usize; }
         }
-        kani::assume(total <= 64);
+        // IEEE 1800 11.4.12.1: a replication with count 0 is legal only inside a concatenation with at least one operand of positive size
+        kani::assume(total >= 1 && total <= 64);
         let mut elements = Vec::with_capacity(3);
         for i in 0..3 {
             if i < n { elements.push((leaf(&e[i].0), e[i].1, e[i].2)); }
@@ -307,13 +288,11 @@ pub mod harness {
         std::mem::forget(node);
     }
     #[vp_proof_uf]
-    pub fn concat_layout_n0() { concat_layout(0) }
+    pub fn concat_layout_n1() { concat_layout(1, 2) }
     #[vp_proof_uf]
-    pub fn concat_layout_n1() { concat_layout(1) }
+    pub fn concat_layout_n2() { concat_layout(2, 2) }
     #[vp_proof_uf]
-    pub fn concat_layout_n2() { concat_layout(2) }
-    #[vp_proof_uf]
-    pub fn concat_layout_n3() { concat_layout(3) }
+    pub fn concat_layout_n3() { concat_layout(3, 1) }
 
     // ---- run time vs compile time: the analyzer's `Expression::eval_value` Ternary arm (extracted, crate::ct::ct_ternary) ------------
     fn ct_eval(c: &ValueU64, t: &ValueU64, f: &ValueU64, context_width: usize) -> Value {
